@@ -713,6 +713,157 @@ def exhaustive_cases(fk, p, maxdeg, variants):
     return cases
 
 
+def structured_poly(rng, p, n, kind=None):
+    """operands that make an algorithm take its rare branches: equal / negated halves (Ph - Pl or Ph + Pl vanishes at some
+    recursion level), all coefficients equal, (1 + X^h) * U, periodic blocks, alternating, one coefficient off a symmetric shape"""
+    if n <= 0:
+        return []
+    kind = rng.below(9) if kind is None else kind
+    h = max(1, n // 2)
+    nz = lambda: 1 + rng.below(p - 1)
+    if kind == 0:                                   # c * (1 + X + ... + X^(n-1))
+        P = [nz()] * n
+    elif kind == 1:                                 # halves equal (n even) / equal up to the extra top coefficient (n odd)
+        U = [rng.below(p) for _ in range(h)]; U[-1] = nz()
+        P = (U + U + [nz()])[:n] if n > 1 else [nz()]
+    elif kind == 2:                                 # halves negated
+        U = [rng.below(p) for _ in range(h)]; U[-1] = nz()
+        P = (U + [(-x) % p for x in U] + [nz()])[:n] if n > 1 else [nz()]
+    elif kind == 3:                                 # (1 + X^h) * U with deg U < h - 1
+        k = max(1, h - rng.choice([1, 2, 3]))
+        U = [rng.below(p) for _ in range(k)]; U[-1] = nz()
+        P = (U + [0] * (h - k) + U)
+    elif kind == 4:                                 # four equal blocks (halves equal again one level down)
+        q = max(1, n // 4)
+        U = [rng.below(p) for _ in range(q)]; U[-1] = nz()
+        P = (U * 4 + [nz()] * 3)[:max(n, 1)]
+    elif kind == 5:                                 # alternating a, b, a, b
+        a, b = nz(), rng.below(p)
+        P = [a if i % 2 == 0 else b for i in range(n)]
+    elif kind == 6:                                 # symmetric shape with one coefficient changed
+        U = [rng.below(p) for _ in range(h)]; U[-1] = nz()
+        P = (U + U + [nz()])[:n] if n > 1 else [nz()]
+        j = rng.below(len(P)); P[j] = (P[j] + 1) % p
+    elif kind == 7:                                 # 1 + X^(n-1) and neighbours (binomials / trinomials)
+        P = [0] * n; P[0] = nz()
+        if n > 2 and rng.chance(1, 2):
+            P[n // 2] = nz()
+    else:                                           # dense
+        P = [rng.below(p) for _ in range(n)]
+    P = (P + [0] * n)[:n]                             # exactly n entries
+    if P[-1] % p == 0:
+        P[-1] = nz()
+    return P
+
+
+def switch_sizes(rng, thr):
+    if thr >= 50:
+        return rng.choice([50, 51, 52, 53, 63, 64, 65, 75, 99, 100, 101, 102, 103, 104, 127, 128, 129, 150, 200, 202, 204, 206])
+    return rng.choice([thr + 1, thr + 2, 2 * thr, 2 * thr + 1, 2 * thr + 2, 4 * thr, 4 * thr + 1, 4 * thr + 3, 7, 8, 9, 12, 15, 16, 17, 31, 32, 33])
+
+
+def structured_cases(rng, tier, thr, fields):
+    """structured operands at the algorithm switch points: products (every public product, squares, middle and truncated
+    products), the divisions built on them, and equal-degree / associated operands for the gcd family"""
+    cases = []
+    per = 5 if tier == "quick" else 40
+    flds = [f for f in fields if f[1] < 2 ** 40]
+
+    def partner(n):
+        m = rng.choice([n, n, n + 1, max(1, n - 1), 2 * n, 2 * n + 1, max(1, n // 2), thr + 1, thr + 2, switch_sizes(rng, thr)])
+        return m
+    for v in ["mul.rpq", "karamul", "mulin", "stdmul", "mul.empty", "axpy", "maxpy"]:
+        op = VARIANTS[v]
+        for _ in range(per):
+            fk, p = rng.choice(flds)
+            n = switch_sizes(rng, thr)
+            A = structured_poly(rng, p, n)
+            B = structured_poly(rng, p, partner(n), rng.choice([None, 8, 8]))
+            if rng.chance(1, 2):
+                A, B = B, A
+            a = [A, B] if SIG[op] == "PP" else [A, B, rand_poly(rng, p, rng.choice([0, 1, n, len(A) + len(B) - 1]))]
+            cases.append((v, op, fk, p, a))
+    for _ in range(2 * per):
+        fk, p = rng.choice(flds)
+        cases.append(("sqr", "sqr", fk, p, [structured_poly(rng, p, switch_sizes(rng, thr))]))
+    for _ in range(per):                                     # (P, P) through the general product
+        fk, p = rng.choice(flds)
+        A = structured_poly(rng, p, switch_sizes(rng, thr))
+        cases.append(("mul.rpq", "mul", fk, p, [A, list(A)]))
+    for v in ["midmul", "stdmidmul", "karamidmul"]:
+        for _ in range(2 * per):
+            fk, p = rng.choice(flds)
+            n = switch_sizes(rng, thr) if not rng.chance(1, 3) else rng.choice([thr + 1, thr + 3, 2 * thr + 1, 2 * thr + 3, 75 if thr >= 50 else 5])
+            if thr >= 50 and v != "stdmidmul":
+                n = min(n, 129)
+            if v == "karamidmul":
+                m = n
+            else:
+                m = rng.choice([n, n, n + 1, max(1, n - 1), 2 * n, 2 * n + 1, 3 * n + 2, max(1, n // 2), max(1, n // 3), thr + 1, 1])
+            A = structured_poly(rng, p, m + n - 1, rng.choice([None, 8]))
+            B = structured_poly(rng, p, n)
+            if rng.chance(1, 4):
+                A[-1] = 0
+            cases.append((v, "midmul", fk, p, [A, B]))
+    for _ in range(2 * per):
+        fk, p = rng.choice(flds)
+        A = structured_poly(rng, p, switch_sizes(rng, thr)); B = structured_poly(rng, p, partner(len(A)))
+        top = len(A) + len(B) - 2
+        v0 = rng.choice([0, 1, len(B) - 1, len(B), len(A) - 1, len(A), top // 2, top])
+        d0 = rng.choice([v0, top, top + 1, max(v0, len(A) - 1), max(v0, len(B)), max(v0, top // 2)])
+        cases.append(("mul.trunc", "mul_trunc", fk, p, [A, B, v0, max(v0, d0)]))
+    for v in ["div.rpq", "divmod", "mod.rpq", "modin", "divmodin", "pdivmod", "pmod", "isDivisor"]:
+        op = VARIANTS[v]
+        for _ in range(per):
+            fk, p = rng.choice(flds)
+            nb = switch_sizes(rng, thr) if not rng.chance(1, 3) else rng.choice([2, 3, thr + 1, 60 if thr >= 50 else 6])
+            if op in ("pdivmod", "pmod"):
+                nb = min(nb, 64)
+            B = structured_poly(rng, p, nb)
+            na = nb + rng.choice([0, 1, 2, 3, 7, 8, 9, 15, 16, 17, 31, 32, 33, nb - 1, nb, nb + 1, 2 * nb])
+            A = structured_poly(rng, p, min(na, 330), rng.choice([None, 8, 8]))
+            if rng.chance(1, 5):
+                A = pmul(B, structured_poly(rng, p, max(1, len(A) - len(B) + 1)), p)      # exact multiple
+            cases.append((v, op, fk, p, [A, B]))
+    for v in ["gcd.2", "gcd.5", "lcm", "invmod", "invmodunit", "isDivisor"]:
+        op = VARIANTS[v]
+        for _ in range(2 * per):
+            fk, p = rng.choice(flds)
+            n = rng.choice([2, 2, 3, 4, 5, 7, 9, 12, 17, 20, 33] + ([52, 57] if thr >= 50 else []))
+            k = rng.below(7)
+            A = rand_poly(rng, p, n, rng.choice([0, 0, 1, 3]))
+            if k == 0:                               # equal degree, unrelated
+                B = rand_poly(rng, p, n, 0)
+            elif k == 1:                             # associated: B = c * A
+                B = pscale(A, 1 + rng.below(p - 1), p)
+            elif k == 2:                             # B = -A / B = A
+                B = pneg(A, p) if rng.chance(1, 2) else list(A)
+            elif k == 3:                             # common factor, cofactors of equal degree
+                C = rand_poly(rng, p, rng.choice([2, 3, 6, 12]), 0)
+                U = rand_poly(rng, p, rng.choice([1, 2, 4]), 0); V = rand_poly(rng, p, len(U), 0)
+                A, B = pmul(C, U, p), pmul(C, V, p)
+            elif k == 4:                             # degrees differ by one, both orders
+                B = rand_poly(rng, p, n + 1, 0)
+                if rng.chance(1, 2):
+                    A, B = B, A
+            elif k == 5:                             # one divides the other
+                B = pmul(A, rand_poly(rng, p, rng.choice([1, 2, 3]), 0), p)
+                if rng.chance(1, 2):
+                    A, B = B, A
+            else:                                    # equal degree, leading coefficients equal (the difference drops in degree)
+                B = rand_poly(rng, p, n, 0); B[-1] = A[-1]
+            if op in ("invmod", "invmodunit"):
+                if len(norm(B)) < 2 or len(pgcd(A, B, p)) != 1:
+                    B = rand_poly(rng, p, max(2, n), 0)
+                    t = 0
+                    while len(pgcd(A, B, p)) != 1 and t < 30:
+                        B = rand_poly(rng, p, max(2, n), 0); t += 1
+                    if len(pgcd(A, B, p)) != 1:
+                        continue
+            cases.append((v, op, fk, p, [A, B]))
+    return cases
+
+
 # exponents across the word boundaries of every integer type an exponent may travel through
 def boundary_exponents(rng):
     sparse = (1 << 128) + (1 << 64) + 1
@@ -1081,6 +1232,8 @@ def main(tier, replay=None):
         run_stream(chk, "thr2", bins, "t2", drv, gen_cases(rng, tier, 2, False, per, FIELDS_SMALLTHR, have), 2, 2, stats)
         run_stream(chk, "real", bins, "real", drv, gen_cases(rng, tier, kth, True, per, FIELDS_REAL, have), kth, sth, stats)
         run_stream(chk, "exponent-boundaries", bins, "t2", drv, exponent_cases(rng, tier), 2, 2, stats)
+        run_stream(chk, "structured thr2", bins, "t2", drv, structured_cases(rng, tier, 2, FIELDS_SMALLTHR), 2, 2, stats)
+        run_stream(chk, "structured real", bins, "real", drv, structured_cases(rng, tier, kth, FIELDS_REAL), kth, sth, stats)
         run_stream(chk, "unnormalised-operands", bins, "t2", drv, unnormalised_cases(rng, 6 if tier == "quick" else 60, FIELDS_SMALLTHR), 2, 2, stats)
         exv = ["mul.rpq", "karamul", "sqr", "divmod", "modin", "gcd.2", "gcd.5", "sub.rpq", "add.rpq", "lcm", "invmod", "pdivmod", "pmod"]
         if tier == "quick":
